@@ -320,8 +320,8 @@ def run(pid, tier):
         d11 = "D11" in active or any(f["id"] == "D11" and f["status"] == "known" and pid in f["properties"] for f in load_findings())
 
         # ---- MC + RP over the bounded universe
-        universes = [(2, "{1,2,3,4,5,6,7,8,9,10,11,12,13,14,15}")] if tier == "quick" else \
-                    [(2, "{1,2,3,4,5,6,7,8,9,10,11,12,13,14,15,16,17,18,19,20}"), (3, "{1,2,4,6,8,9,11,12,13,14,16,17}")]
+        universes = [(2, "{1,2,3,4,5,6,7,8,9,10,11,12,13,14,15,21,22}")] if tier == "quick" else \
+                    [(2, "{1,2,3,4,5,6,7,8,9,10,11,12,13,14,15,16,17,18,19,20,21,22,23}"), (3, "{1,2,4,6,8,9,11,12,13,14,16,17,22}")]
         states = trans = 0
         allmodels = []
         for nfree, menu in universes:
